@@ -155,16 +155,21 @@ func (g *gen) template(depth int) Snip {
 			nm := core.Pick(r, names)
 			used[nm] = true
 			b.WriteString("@" + nm)
-			if r.Chance(35) {
+			switch t := r.Intn(100); {
+			case t < 35:
 				b.WriteString("'")
 				if r.Chance(15) {
 					b.WriteString("'")
 				}
-			} else if r.Chance(15) { // name characters directly after the name: a longer (probably unbound) name
+			case t < 45: // name characters directly after the name: a longer name (bound below, most of the time)
 				c := core.Pick(r, []string{"z", "9", "_", "Q"})
 				b.WriteString(c)
 				delete(used, nm)
 				used[nm+c] = true
+				b.WriteString(core.Pick(r, []string{" ", ".", "'", ")"}))
+			case t < 92: // a terminator that is not a name character
+				b.WriteString(core.Pick(r, []string{" ", ".", ",", ")", "(", "\n", "-", ":", "=", "é", "\t", "{"}))
+			default: // nothing: the next piece may extend the name or start another placeholder
 			}
 		case k < 44:
 			b.WriteString(core.Pick(r, []string{"@@", "@ ", "@'", "@.", "@-", "@\n", "@é", "@%"}))
@@ -180,7 +185,7 @@ func (g *gen) template(depth int) Snip {
 	var args []Arg
 	for _, nm := range names {
 		if used[nm] {
-			if r.Chance(6) {
+			if r.Chance(2) {
 				continue // unbound: must panic
 			}
 			args = append(args, named(nm, g.argSnip(depth)))
@@ -199,7 +204,7 @@ func (g *gen) template(depth int) Snip {
 				known = true
 			}
 		}
-		if !known && r.Chance(50) {
+		if !known && r.Chance(85) {
 			args = append(args, named(nm, g.argSnip(depth)))
 		}
 	}
@@ -225,49 +230,57 @@ func sortArgs(a []Arg) {
 func (g *gen) sprintf(depth int) Snip {
 	r := g.r
 	var b strings.Builder
-	verbs := 0
+	var verbs []byte
 	n := r.Intn(8)
 	for i := 0; i < n; i++ {
 		k := r.Intn(100)
 		switch {
 		case k < 25:
 			b.WriteString("%v")
-			verbs++
+			verbs = append(verbs, 'v')
 		case k < 40:
 			b.WriteString("%T")
-			verbs++
+			verbs = append(verbs, 'T')
 		case k < 55:
 			b.WriteString("%%")
-		case k < 58:
+		case k < 57:
 			b.WriteString(core.Pick(r, []string{"%d", "%s", "% ", "%é", "%'", "%@"}))
 		default:
-			b.WriteString(g.lit())
+			l := g.lit()
+			if strings.Contains(l, "%") {
+				l = "@x'"
+			}
+			b.WriteString(l)
 		}
 	}
-	if r.Chance(4) {
+	if r.Chance(2) {
 		b.WriteString("%")
 	}
 	f := b.String()
-	// recount: literals may contain verbs
-	verbs = strings.Count(strings.ReplaceAll(f, "%%", ""), "%v") + strings.Count(strings.ReplaceAll(f, "%%", ""), "%T")
-	na := verbs
-	switch r.Intn(12) {
+	switch r.Intn(20) {
 	case 0:
-		if na > 0 {
-			na--
+		if len(verbs) > 0 {
+			verbs = verbs[:len(verbs)-1] // one argument too few
 		}
 	case 1:
-		na++
+		verbs = append(verbs, 'v') // one argument too many
 	}
 	var args []Arg
-	for i := 0; i < na; i++ {
-		if r.Chance(35) && depth < 3 {
+	for _, vb := range verbs {
+		switch {
+		case r.Chance(35) && depth < 3:
 			s := g.argSnip(depth + 1)
 			if s.K == "nil" {
 				s = block("")
 			}
 			args = append(args, sarg(s))
-		} else {
+		case vb == 'T' && r.Chance(90): // something ID() supports
+			if r.Bool() {
+				args = append(args, varg(Val{T: "name", S: core.Pick(r, []string{"Foo", "bar", "T1", "_x"})}))
+			} else {
+				args = append(args, varg(Val{T: "rtype", S: core.Pick(r, []string{"int", "string", "bool", "[]string", "map[string]int"})}))
+			}
+		default:
 			args = append(args, varg(g.val()))
 		}
 	}
@@ -348,7 +361,7 @@ func (g *gen) malformed() Snip {
 func (prop) Generate(r *core.RNG, tier string) []json.RawMessage {
 	n := 4000
 	if tier == "thorough" {
-		n = 20000
+		n = 15000
 	}
 	var out []json.RawMessage
 	for _, s := range fixed() {
@@ -392,7 +405,10 @@ func exhaustive() []json.RawMessage {
 	syms := []string{"a", "x", "@", "'", "%", "\n", "_", " "}
 	var rec func(prefix string, d int)
 	rec = func(prefix string, d int) {
-		for _, env := range envs {
+		for i, env := range envs {
+			if i == 2 && d == 5 { // the third environment up to length 4 only (volume)
+				continue
+			}
 			out = append(out, enc(tpl(prefix, env...)))
 		}
 		if d == 5 {
